@@ -118,6 +118,12 @@ impl Check for C01 {
                 } else { good };
                 let line: String = line.chars().take(200).collect();
                 lines.push(Line::Raw(line));
+                if r.chance(1, 25) {
+                    // a binding whose right-hand side parses but fails in the interpreter, then a use of the name
+                    let nm = *r.pick(&["alpha", "budget", "netto", "salary"]);
+                    lines.push(Line::Raw(format!("{} = {}", nm, r.pick(&["10:30 * 2", "1 hour + 2", "today * today", "3 km + 2 usd"]))));
+                    lines.push(Line::Raw(format!("{} + 1", nm)));
+                }
             }
             if let Some(dl) = dst_line { lines.push(Line::Raw(dl)); }
             if any_bad && r.chance(1, 2) {
